@@ -290,7 +290,10 @@ def replay_findings(chk):
     chk.known("local-declarations-leak-through-shared-tables", e1 == ["m", "a", "t"] or e2 == ["m", "a", "t"])
     prog = witness_unresolved_binding()
     _, _, problems = I.html_check(prog, G.render_files(prog))
-    chk.known("unresolved-binding-target-aborts-rendering", any("Unknown entity" in x for x in problems))
+    # repaired in /repo 1b07a9c (fixed: entry in known_findings.d/C07.json): reported again if it returns
+    if problems:
+        chk.violation("failing-input", {"what": "an unresolved type-bound procedure target does not stay plain text",
+                                        "problems": problems[:10], "prog": prog, "files": G.render_files(prog)}, True)
 
 
 def replay(chk, rep):
